@@ -34,6 +34,7 @@ class T:
 
     def __init__(self, label):
         self.label = label
+        self.input_vars = frozenset()  # the opaque leaves mention none of the reduced variables
 
     def reduce(self, op, vs):
         return ("reduce", self, op, frozenset(vs))
@@ -55,6 +56,7 @@ class Con(T):
         T.__init__(self, "Contraction")
         if len(terms) == 1 and isinstance(terms[0], tuple):
             terms = terms[0]
+        self.input_vars = frozenset()
         self.red_op, self.bin_op, self.reduced_vars, self.terms = red_op, bin_op, frozenset(reduced_vars), tuple(terms)
 
     def key(self):
@@ -441,3 +443,59 @@ class EagerContractionRecursive(Contract):
             ("remaining_reduced_variables_untouched", kept_ok),
             ("operand_order_and_coverage", firsts == sorted(firsts) and covers),
         ]
+
+
+def registrations(path, funcname):
+    """decorator argument lists `@<interp>.register(...)` of a rule, read from the AST (registration = the rule's precondition)"""
+    import ast
+
+    src, tree = core.parse_file(path)
+    out = []
+    for n in ast.walk(tree):
+        if isinstance(n, ast.FunctionDef) and n.name == funcname:
+            for d in n.decorator_list:
+                if isinstance(d, ast.Call) and isinstance(d.func, ast.Attribute) and d.func.attr == "register":
+                    out.append((ast.unparse(d.func.value), [ast.unparse(a) for a in d.args]))
+    return out
+
+
+@register
+class UnaryContractRule(Contract):
+    """cnf.unary_contract(op, arg): pushes a unary op inside a Contraction: f(b-product of ts) -> b-product of f(t).
+    This is an identity only for the pairs (neg over add-products) and (reciprocal over mul-products) WITHOUT a reduction in
+    between (neg also commutes with an add-reduction, but not with logaddexp / max / min).  The rule's REGISTRATION PATTERNS
+    are its precondition: every registered pattern (read from the decorators) must lie inside that law table, and on such
+    arguments the body returns Contraction(red_op, bin_op, reduced_vars, f(t)...) with the terms in order."""
+
+    props = ("C02", "C03", "C08")
+    file = "funsor/cnf.py"
+    qualname = "unary_contract"
+    total = True
+    LAWS = {("ops.NegOp", "NullOp", "ops.AddOp"), ("ops.ReciprocalOp", "NullOp", "ops.MulOp"), ("ops.NegOp", "ops.AddOp", "ops.AddOp")}
+    mutants = (("terms reversed", "*(op(t) for t in arg.terms)", "*(op(t) for t in reversed(arg.terms))"),)
+
+    def structures(self, tier):
+        for interp, args in registrations(self.file, self.qualname):
+            yield "registered: %s(%s)" % (interp, ", ".join(args)), (interp, tuple(args))
+        yield "body", "body"
+
+    def build(self, p, st):
+        a, b = T("a"), T("b")
+        arg = Con(NULL, ADD, frozenset(), a, b)
+        op = lambda t: ("f", t)
+        return Ctx(args=(op, arg), namespace=NS, st=st, a=a, b=b)
+
+    def ensures(self, ctx, result):
+        st = ctx.st
+        body_ok = k(result) == Con(NULL, ADD, frozenset(), ("f", ctx.a), ("f", ctx.b)).key()
+        if st == "body":
+            return [("pushes_the_op_into_every_term_in_order", body_ok)]
+        interp, args = st
+        import re
+
+        m = re.match(r"Contraction\[(.+)\]$", args[2]) if len(args) == 3 else None
+        pat = None
+        if m:
+            parts = [x.strip() for x in m.group(1).split(",")]
+            pat = (args[1], parts[0], parts[1])
+        return [("registered_pattern_is_covered_by_a_law", interp == "normalize" and args[0] == "Unary" and pat in self.LAWS)]
